@@ -304,6 +304,40 @@ func c17GenFile(r *rand.Rand, req *Request, dir string, idx int, big bool, bound
 	return f
 }
 
+// c17BadCTs / c17BadKeys: content types that are not header field values and Content-Disposition
+// parameter names that are not tokens — what writeMultiPart must refuse (a part header cannot
+// carry them; written verbatim they inject header lines).
+var c17BadCTs = []string{"text/plain\r\nX-Injected: 1", "a\x00b", "text/\x7f", "x\ny", "\r", "image/png\r\n\r\nbody", "t\x1fq"}
+var c17BadKeys = []string{"x y", "x\"y", "k\r\nX-Injected: 1\r\nZ", "", "k;", "ключ", "a=b", "k\x00", "(k)"}
+
+// c17GenRefusedFile attaches a FileUpload the writer must refuse: what = "ctype" | "key".
+func c17GenRefusedFile(r *rand.Rand, req *Request, idx int, what string, boundary string) c17File {
+	f := c17File{param: "file" + strconv.Itoa(idx), name: "name" + strconv.Itoa(idx) + ".bin", content: c17Content(r, false, boundary), how: "upload"}
+	f.firstRead = len(f.content)
+	if f.firstRead > 512 {
+		f.firstRead = 512
+	}
+	content := f.content
+	up := FileUpload{ParamName: f.param, FileName: f.name,
+		GetFileContent: func() (io.ReadCloser, error) { return io.NopCloser(bytes.NewReader(content)), nil }}
+	if what == "ctype" {
+		f.ct = verifh.Pick(r, c17BadCTs)
+		up.ContentType = f.ct
+	} else {
+		cd := new(ContentDisposition)
+		if r.Intn(2) == 0 {
+			cd.Add("x-ok", "fine")
+			f.extras = append(f.extras, [2]string{"x-ok", "fine"})
+		}
+		k := verifh.Pick(r, c17BadKeys)
+		cd.Add(k, "v")
+		f.extras = append(f.extras, [2]string{k, "v"})
+		up.ExtraContentDisposition = cd
+	}
+	req.SetFileUpload(up)
+	return f
+}
+
 // settled content type of the part as the current code computes it (model parameter).
 func (f c17File) settledCT() string {
 	if f.ct != "" {
@@ -560,7 +594,7 @@ func TestVerif_C17_quote(t *testing.T) {
 // encoding, boundary injected with SetMultipartBoundaryFunc) byte for byte vs the model.
 func TestVerif_C17_mpwrite(t *testing.T) {
 	s := verifh.New(t, "C17", "mpwrite",
-		"multipart requests: fields from ordered form data (0..4 pairs) or a one-key map (so that map order cannot matter), client-level fields in 1/8, both ordered and map in 1/10; 0..4 files by bytes / scripted reader (first read 1..512 bytes) / path on disk / FileUpload (content type given, blank or sniffed; extra parameters), sizes around 512 B and 32 KiB, text/binary/boundary look-alike content; custom boundaries incl. ones needing quoting; forced chunked in 1/3; non-trivial = at least one file and one field")
+		"multipart requests: fields from ordered form data (0..4 pairs) or a one-key map (so that map order cannot matter), client-level fields in 1/8, both ordered and map in 1/10; in 1/3 of the cases ONE exotic part-header ingredient: a field name with CR / LF / NUL / DEL / other controls (must arrive percent-encoded, never as extra header lines), an empty field name, a file content type that is not a header value (CR LF injection, NUL, DEL), a Content-Disposition parameter name that is not a token (spaces, quotes, CR LF, empty, non-ASCII) — the last three must fail the call; 0..4 files by bytes / scripted reader (first read 1..512 bytes) / path on disk / FileUpload (content type given, blank or sniffed; extra parameters), sizes around 512 B and 32 KiB, text/binary/boundary look-alike content; custom boundaries incl. ones needing quoting; forced chunked in 1/3; non-trivial = at least one file and one field")
 	r := s.Rand()
 	dir := t.TempDir()
 	n := verifh.N(800, 12000)
@@ -573,7 +607,6 @@ func TestVerif_C17_mpwrite(t *testing.T) {
 		req.EnableForceMultipart()
 		var pairs [][2]string
 		var ordArgs []string
-		inDomain := true // field names a MIME header can carry (the stdlib writes them unencoded)
 		var mapKey string
 		var reqVals, clVals []string
 		mode := r.Intn(10)
@@ -583,14 +616,34 @@ func TestVerif_C17_mpwrite(t *testing.T) {
 		if withClient && (mode < 5 || mode == 9) {
 			mode = 5 + r.Intn(4)
 		}
+		// what the part headers are made of: mostly plain; else ONE of: a field name with bytes a
+		// header cannot carry (CR, LF, NUL, DEL, …), an empty field name, a file whose content type
+		// is not a header value, a file with a Content-Disposition parameter name that is not a token
+		exotic := ""
+		if !withClient && r.Intn(3) == 0 {
+			exotic = verifh.Pick(r, []string{"field-ctl", "field-ctl", "field-empty", "ctype", "key"})
+		}
+		if exotic == "field-ctl" || exotic == "field-empty" {
+			mode = r.Intn(5) // ordered pairs only
+		}
 		if mode < 5 || mode == 9 { // ordered
-			for j := 0; j < r.Intn(5); j++ {
+			np := r.Intn(5)
+			if (exotic == "field-ctl" || exotic == "field-empty") && np == 0 {
+				np = 1
+			}
+			special := r.Intn(np + 1)
+			for j := 0; j < np; j++ {
 				k := c17Str(r, 8)
-				if k == "" || (c17HasUnsafe(k) && r.Intn(8) != 0) {
+				if k == "" || c17HasUnsafe(k) {
 					k = "k" + strconv.Itoa(j)
 				}
-				if c17HasUnsafe(k) {
-					inDomain = false
+				if j == special%max(np, 1) {
+					switch exotic {
+					case "field-ctl":
+						k = verifh.Pick(r, []string{"a\r\nX-Injected: yes", "nul\x00", "\r\n\r\nfake body", "del\x7f", "bell\a", "a\nb", "esc\x1b[0m", "\x01", "tab\tand\vvt"}) + verifh.RandBytes(r, r.Intn(3), "ab\"\\")
+					case "field-empty":
+						k = ""
+					}
 				}
 				v := c17Str(r, 40)
 				pairs = append(pairs, [2]string{k, v})
@@ -626,9 +679,19 @@ func TestVerif_C17_mpwrite(t *testing.T) {
 		if nf > 2 && r.Intn(2) == 0 {
 			nf = 1
 		}
-		files := make([]c17File, 0, nf)
+		files := make([]c17File, 0, nf+1)
+		refusedAt := -1
+		if exotic == "ctype" || exotic == "key" {
+			refusedAt = r.Intn(nf + 1)
+		}
 		for j := 0; j < nf; j++ {
-			files = append(files, c17GenFile(r, req, dir, i*10+j, r.Intn(6) == 0, b, len(clVals) > 0 || (len(pairs) > 0 && len(reqVals) > 0)))
+			if j == refusedAt {
+				files = append(files, c17GenRefusedFile(r, req, i*10+9, exotic, b))
+			}
+			files = append(files, c17GenFile(r, req, dir, i*10+j, r.Intn(6) == 0, b, exotic != "" || len(clVals) > 0 || (len(pairs) > 0 && len(reqVals) > 0)))
+		}
+		if refusedAt == nf {
+			files = append(files, c17GenRefusedFile(r, req, i*10+9, exotic, b))
 		}
 		chunked := r.Intn(3) == 0
 		if chunked {
@@ -637,8 +700,13 @@ func TestVerif_C17_mpwrite(t *testing.T) {
 		}
 		failed, body, ct := c17RunBodyMiddleware(c, req)
 		if !failed && chunked && req.GetBody != nil {
+			// the streamed body: an error of the writer arrives as the error of reading the pipe
+			// (that is what fails the transport's upload)
 			rc, _ := req.GetBody()
-			body, _ = io.ReadAll(rc)
+			var rerr error
+			if body, rerr = io.ReadAll(rc); rerr != nil {
+				failed, body = true, nil
+			}
 		}
 		impl := "err"
 		if !failed {
@@ -652,19 +720,19 @@ func TestVerif_C17_mpwrite(t *testing.T) {
 		for _, v := range clVals {
 			fields = append(fields, [2]string{mapKey, v})
 		}
-		// oracle: the standard reader gives back exactly fields then files
-		ok := !failed
-		if !inDomain {
-			s.Count("field-name-outside-domain")
-			ok = true
-		} else if ok {
+		// oracle: what cannot be carried is refused (the call fails, nothing is produced); else the
+		// standard reader gives back exactly fields then files — field names like file names: every
+		// byte a header can carry exactly, the others percent-encoded
+		wantErr := exotic == "field-empty" || exotic == "ctype" || exotic == "key"
+		ok := failed == wantErr
+		if ok && !failed {
 			items, err := c17ServerItems(b, body)
 			if err != nil || len(items) != len(fields)+len(files) {
 				ok = false
 			} else {
 				for j, fl := range fields {
 					it := items[j]
-					if it.file || it.name != fl[0] || it.value != fl[1] {
+					if it.file || it.name != c17Arrives(fl[0]) || it.value != fl[1] {
 						ok = false
 					}
 				}
@@ -678,12 +746,14 @@ func TestVerif_C17_mpwrite(t *testing.T) {
 					}
 				}
 			}
-			wantCT := mime.FormatMediaType("multipart/form-data", map[string]string{"boundary": b})
 			_, cps, cerr := mime.ParseMediaType(ct)
 			if cerr != nil || cps["boundary"] != b || !strings.HasPrefix(ct, "multipart/form-data") {
 				ok = false
 			}
-			_ = wantCT
+			// no part header may contain a line the caller's strings smuggled in
+			if bytes.Contains(body, []byte("X-Injected")) && !bytes.Contains(body, []byte("%0D%0AX-Injected")) {
+				ok = false
+			}
 		}
 		class := ""
 		differs := false
@@ -711,6 +781,14 @@ func TestVerif_C17_mpwrite(t *testing.T) {
 			}
 		}
 		switch {
+		case exotic == "field-ctl":
+			class = "c17-field-name-ctl"
+		case exotic == "field-empty":
+			class = "c17-field-name-empty"
+		case exotic == "ctype":
+			class = "c17-part-ctype-ctl"
+		case exotic == "key":
+			class = "c17-part-param-key"
 		case differs:
 			class = "c17-quote-ctl"
 		case len(clVals) > 0:
